@@ -33,8 +33,8 @@ META = {
     "explanation": "bounded SMT check: all weights, all random outcomes (with exact probabilities), the termination predicate "
                    "and the slice level symbolic; tree depth / step count bounded",
     "bounds": {"quick": {"metropolis_n_step": "1-3", "random_range": "[1,4)", "max_tree_depth": "1-2", "extra_subtree_checks": [True, False]},
-               "thorough": {"metropolis_n_step": "1-5", "max_tree_depth": "1-3 (multinomial), 1-3 (slice)"}},
-    "outside": "tree depth > 3; finite divergence threshold for the multinomial sampler (relative to the start energy: exact "
+               "thorough": {"metropolis_n_step": "1-5", "max_tree_depth": "1-2 (multinomial), 1-3 (slice)"}},
+    "outside": "tree depth > 2 (multinomial: the depth-3 balance queries did not finish in 70 min) / > 3 (slice); finite divergence threshold for the multinomial sampler (relative to the start energy: exact "
                "invariance is not a theorem there); integrator errors inside a trajectory (C12); the orbit abstraction assumes "
                "the integrator is a bijection with unit Jacobian (C02, C03)",
     "stubs": ["integrator: index shift by the direction flag", "system.h: log(1/w_k)", "numpy.random.Generator: scripted (uniform -> "
@@ -509,7 +509,9 @@ def cases(tier):
     if th:
         out.append(Case("metropolis/random/2-6", case_metropolis, {"n_range": [2, 6]}, timeout_s=1800))
     for kind in ("multinomial", "slice"):
-        for depth in ((1, 2, 3) if th else (1, 2)):
+        # depth 3: the slice sampler's obligations are decided during exploration (6 min); the multinomial balance queries at
+        # depth 3 did not finish in 70 min and are outside the claim
+        for depth in ((1, 2, 3) if th and kind == "slice" else (1, 2)):
             for extra in (True, False):
                 out.append(Case(f"{kind}/depth{depth}/extra{extra}", case_dynamic, {"kind": kind, "depth": depth, "extra": extra},
                                 timeout_s=7200 if depth == 3 else 1500))
